@@ -4,6 +4,8 @@
 # ./run.sh --build                    build only
 # exit 0 held / 1 violation (VIOLATION line) / 2 inconclusive (build failure, watchdog, OOM)
 set -u
+REPLAY_PATH=""
+if [ "${1:-}" = "--replay" ] && [ -n "${2:-}" ]; then REPLAY_PATH="$(realpath "$2" 2>/dev/null || echo "$2")"; fi
 cd "$(dirname "$0")/harness" || exit 2
 export CARGO_NET_OFFLINE=true
 export RUSTFLAGS="--cfg noodles_verif"
@@ -22,7 +24,7 @@ build() {
 NV=target/verif/nv
 case "${1:-}" in
   --build) build; exit 0 ;;
-  --replay) build; exec "$NV" replay "$2" ;;
+  --replay) build; exec "$NV" replay "$REPLAY_PATH" ;;
   C[0-9]*)
     tier="${2:-${VERIF_TIER:-quick}}"
     build
